@@ -127,6 +127,21 @@ CLAIMED["C17"] = dict(
     note="The delay signal is an input: the tier cascade is driven with RTTs far above / below every tier. The "
          "verdict sequence (weak, reason class, share, threshold) is compared exactly.")
 
+CLAIMED["C07"] = dict(
+    engine="tlc+registration", design_ref="4.7",
+    technique="TLA+ model of the registration manager with relative countdown timers; TLC on the complete state graph "
+              "(no depth bound); every transition out of every manager state executed on the real manager through "
+              "process_uplink_packet; recorded ms-resolution histories validated by TLC",
+    text="TLC explores the complete graph of the handshake (REG_NGP / REG2 full, short, wrong-link, any id token / "
+         "REG3 / REG_ERR on any link, housekeeping passes, link drops, clock steps across the 1 s / 2 s / 4 s "
+         "deadlines; 2 links, 3 with the thorough tier) and checks at-most-one outstanding REG1, driver REG1 only "
+         "while unregistered, REG2 acceptance and id adoption, one broadcast round per acceptance carrying the "
+         "adopted id, connected only by REG3, REG_ERR cancels, abandonment after 4 s and re-acceptance; 3.2e5 "
+         "transitions are executed on the real manager with real packet bytes and every emitted packet decoded "
+         "back, and 40k-240k event histories at ms resolution (deadlines +-1 ms) are validated exactly.",
+    note="The call order of the housekeeping pass and the timed-out re-send are replicated by the harness at this "
+         "level (the real handle_housekeeping is executed by the shell-level checks). Ids are tokens.")
+
 PENDING = {}
 
 def main():
